@@ -674,7 +674,9 @@ func crossStats(obls []*Obligation) map[string]int {
 		}
 		k := "confirmed"
 		if strings.HasPrefix(o.CrossChecked, "not confirmed") {
-			k = "second solver gave no answer within 8 s"
+			k = "no other solver gave an answer within 8 s"
+		} else if strings.HasPrefix(o.CrossChecked, "confirmed by z3-4.8.12") {
+			k = "confirmed by z3 4.8.12 only (cvc5 gave no answer within 8 s)"
 		}
 		out[k]++
 	}
